@@ -39,6 +39,8 @@ def cons_cases(tier):
     precs = ("double",) if tier == "quick" else ("double", "single")
     for p, g, pad, m, pr in itertools.product(profs, grids, pads, modes, precs):
         yield {"prof": p, "grid": g[0], "dom": g[1], "pad": list(pad), "modes": m, "prec": pr}
+    for k, (g, pad) in enumerate(itertools.product(sl.DEGENERATE_GRIDS, ((0, 0), (2, 1)))):
+        yield {"prof": profs[k % len(profs)], "grid": g[0], "dom": g[1], "pad": list(pad), "modes": [64, 64], "prec": "double"}
     # odd sizes: only clamped mode counts are accepted
     for k, (g, pad) in enumerate(itertools.product(sl.ODD_GRIDS, ((0, 0), (2, 1)))):
         for p in (profs if tier != "quick" else (profs[k % len(profs)],)):
